@@ -72,7 +72,25 @@ def counting_fields(F, s):
 
 def exc_weight_only(den, F=None, s=None):
     """the denominator is built from call-counting fields (weight / count / period) and constants only"""
-    return bool(_pres(den)) and _pres(den) <= counting_fields(F, s)
+    if not (bool(_pres(den)) and _pres(den) <= counting_fields(F, s)):
+        return False
+    # ... and combined so that "every counting field >= 1" carries over: sums, products and quotients with positive literals only
+    # (`weight - 40.0` mentions only a counting field too, and is zero on the 40th call)
+    def pos(t):
+        if not isinstance(t, tuple) or not t:
+            return False
+        if t[0] == "c":
+            return t[1] in ("f64", "int") and isinstance(t[2], (int, float)) and t[2] > 0
+        if t[0] == "pre":
+            return True
+        if t[0] in ("i2f",):
+            return pos(t[1])
+        if t[0] in ("+", "*", "/") and len(t) == 3:
+            return pos(t[1]) and pos(t[2])
+        if t[0] == "gamma":
+            return pos(t[2]) and pos(t[3])
+        return False
+    return pos(den)
 
 
 # named exceptions: function label -> (predicate on the denominator term, reason). An exception that matches no unguarded division is reported as stale.
